@@ -69,6 +69,7 @@ impl Prop for C06 {
     let k = fault_kinds()[kind];
     cfg.force_interface = k.starts_with("interface:") || k.starts_with("bound:");
     cfg.force_multi_module = k.starts_with("visibility:");
+    cfg.force_hof = k.contains("hinted-lambda");
     let (mut ir, _feats) = gen_program(t, cfg);
     let original = ir.render();
     let fault = inject(&mut ir, t, kind);
